@@ -90,6 +90,38 @@ catalogue! {
     model = |x| *x > 0.0f32 && *x <= 1e-45f32;
     class = |s| class_num_str(s, Some(0.0), Some(1e-45f32 as f64));
 
+    // ---- the same at boundaries whose mantissa is above 1.5, where `|x| * EPSILON` is nearly two
+    //      steps (seeded change C09-u: the half-range limit applied to the fixed delta only)
+    #[nutype(validate(greater = 1.75, less_or_equal = 1.7500001), derive(Debug, Arbitrary))]
+    struct F32GtLeUlp175(f32);
+    family = "float";
+    model = |x| *x > 1.75f32 && *x <= 1.7500001f32;
+    class = |s| class_num_str(s, Some(1.75), Some(1.7500001f32 as f64));
+
+    #[nutype(validate(greater = 1.75, less = 1.7500002), derive(Debug, Arbitrary))]
+    struct F32GtLt2Ulp175(f32);
+    family = "float";
+    model = |x| *x > 1.75f32 && *x < 1.7500002f32;
+    class = |s| class_num_str(s, Some(1.75), Some(1.7500002f32 as f64));
+
+    #[nutype(validate(greater_or_equal = 3.5, less = 3.5000002), derive(Debug, Arbitrary))]
+    struct F32GeLtUlp35(f32);
+    family = "float";
+    model = |x| *x >= 3.5f32 && *x < 3.5000002f32;
+    class = |s| class_num_str(s, Some(3.5), Some(3.5000002f32 as f64));
+
+    #[nutype(validate(greater = 7.0, less_or_equal = 7.000000000000001), derive(Debug, Arbitrary))]
+    struct F64GtLeUlp7(f64);
+    family = "float";
+    model = |x| *x > 7.0 && *x <= 7.000000000000001;
+    class = |s| class_num_str(s, Some(7.0), Some(7.000000000000001));
+
+    #[nutype(validate(greater = -7.000000000000002, less = -7.0), derive(Debug, Arbitrary))]
+    struct F64GtLt2UlpNeg7(f64);
+    family = "float";
+    model = |x| *x > -7.000000000000002 && *x < -7.0;
+    class = |s| class_num_str(s, Some(-7.000000000000002), Some(-7.0));
+
     // ---- `finite` with an exclusive bound one ulp from the type's limit (valid set = {MAX} / {MIN})
     #[nutype(validate(finite, greater = 3.4028233e38), derive(Debug, Arbitrary))]
     struct F32FinGtNearMax(f32);
